@@ -338,9 +338,102 @@ async fn run(case: &Case, _sim: bool) -> Outcome {
     Ok(Pass { nontrivial: tasks_with_gets >= 2 && cross_edges > 0, labels })
 }
 
+
+// ---------------------------------------------------------------------------------------
+// Part `crowd`: more callers than the clock's request queue holds (1000).  A few generated script templates are
+// instantiated for 1050-2600 tasks that all start at once; the same oracle applies.
+
+pub struct Crowd;
+
+impl Prop for Crowd {
+    type Case = Case;
+
+    fn id(&self) -> &'static str {
+        "C11"
+    }
+
+    fn part(&self) -> &'static str {
+        "crowd"
+    }
+
+    fn width(&self) -> usize {
+        64
+    }
+
+    fn breadcrumbs(&self) -> bool {
+        true
+    }
+
+    fn shrink_budget(&self) -> usize {
+        60
+    }
+
+    fn gen(&self, src: &mut Src) -> Case {
+        let n_tasks = 1_050 + src.below(1_550);
+        let n_templates = 1 + src.below(3);
+        let mut templates: Vec<Vec<Step>> = vec![];
+        for _ in 0..n_templates {
+            let mut steps = vec![];
+            for _ in 0..1 + src.below(4) {
+                steps.push(match src.weighted(&[4, 4, 1]) {
+                    0 => Step::Get,
+                    // the offset is replaced per task below
+                    1 => Step::Register { offset_s: 0, counter: *src.pick(&[0u16, 1, 7]), node: *src.pick(&[1u8, 2]) },
+                    _ => Step::Yield,
+                });
+            }
+            // every template ends with a request for a stamp
+            steps.push(Step::Get);
+            templates.push(steps);
+        }
+        let spread = *src.pick(&[1i64, 2, 3_000]);
+        let tasks = (0..n_tasks)
+            .map(|i| {
+                templates[i % n_templates]
+                    .iter()
+                    .map(|s| match s {
+                        Step::Register { counter, node, .. } => Step::Register { offset_s: (i as i64 * spread) % 3_900, counter: *counter, node: *node },
+                        other => *other,
+                    })
+                    .collect()
+            })
+            .collect();
+        Case { tasks, multi_thread: false }
+    }
+
+    fn run(&self, case: &Case) -> Outcome {
+        let out = e2::block_on_sim(70_000_000, e2::no_skew(), run(case, true))?;
+        let mut labels = out.labels;
+        labels.push("tasks>1000");
+        let registers = case.tasks.iter().flatten().filter(|s| matches!(s, Step::Register { .. })).count();
+        Ok(Pass { nontrivial: registers >= 1_000, labels })
+    }
+
+    fn describe(&self, case: &Case) -> Value {
+        let mut distinct: Vec<Vec<String>> = vec![];
+        for t in case.tasks.iter().take(6) {
+            distinct.push(t.iter().map(|s| format!("{:?}", s)).collect());
+        }
+        json!({
+            "runtime": "current-thread, paused time, injected wall clock",
+            "number_of_tasks": case.tasks.len(),
+            "first_tasks": distinct,
+        })
+    }
+
+    fn rule(&self) -> &'static str {
+        "1050-2600 tasks sharing one datacake_node::Clock (its request queue holds 1000), all started at once on a \
+         current-thread runtime; each runs one of 1-3 generated templates of 2-5 steps (get_time | register_ts of a \
+         foreign stamp 0-3900 s ahead of the wall clock, different per task | yield) ending in get_time; same oracle as \
+         the other parts: all stamps distinct, per task strictly increasing, every get after a register of the same task \
+         greater than the registered stamp; non-trivial = >= 1000 registrations in the case"
+    }
+}
+
 pub fn parts() -> Vec<Box<dyn DynPart>> {
     vec![
         Box::new(Gen::new(C11 { multi_thread: false }, 60_000, 3_000_000)),
         Box::new(Gen::new(C11 { multi_thread: true }, 500, 20_000)),
+        Box::new(Gen::new(Crowd, 4_000, 200_000)),
     ]
 }
